@@ -31,6 +31,22 @@ static void symm_run(Ctx& c) {
     Rng& r = c.rng;
     GenOpts g; g.max_modes = c.thorough() ? (r.coin(0.2) ? 8 : 6) : 6; g.allow_unbalanced = true; g.hetero = true;
     ModelSpec m = gen_model(r, g);
+    // widely separated scales in one Hamiltonian: a frozen orbital (level 1e6) next to a tiny symmetry-breaking term (1e-9).
+    // The library decides conservation symbolically with an ABSOLUTE window (100*eps on coefficients), and so do the monitors below.
+    bool wide = (c.k % 8 == 7);
+    if (wide) {
+        int sA = (int)r.range(0, (long)m.sites.size() - 1), sB = (int)r.range(0, (long)m.sites.size() - 1);
+        Op big; big.kind = Op::LEVEL; big.a = big.b = sA; big.v1 = (r.coin() ? 1 : -1) * r.logu(1e5, 1e7); m.ops.push_back(big);
+        const SiteSpec& B = m.sites[(size_t)sB];
+        double tiny = r.logu(1e-11, 1e-8);
+        if (B.nspin >= 2 && r.coin(0.7)) { Op h; h.kind = Op::HOP4; h.a = h.b = sB; h.o1 = h.o2 = (int)r.range(0, B.norb - 1); h.s1 = 0; h.s2 = 1; h.v1 = tiny; m.ops.push_back(h); }   // transverse field: breaks S_z
+        else if (m.nmodes() >= 2) {   // pair term: breaks N
+            int s2 = (int)r.range(0, (long)m.sites.size() - 1); const SiteSpec& C2 = m.sites[(size_t)s2];
+            RawTerm t; t.dag = {1, 1}; t.site = {sB, s2}; t.orb = {0, C2.norb - 1}; t.spin = {0, C2.nspin - 1}; t.val = tiny;
+            if (!(sB == s2 && t.orb[0] == t.orb[1] && t.spin[0] == t.spin[1])) { RawTerm hc; hc.dag = {0, 0}; hc.site = {s2, sB}; hc.orb = {t.orb[1], t.orb[0]}; hc.spin = {t.spin[1], t.spin[0]}; hc.val = tiny;
+                Op a; a.kind = Op::RAW; a.raw = t; Op b; b.kind = Op::RAW; b.raw = hc; m.ops.push_back(a); m.ops.push_back(b); }
+        }
+    }
     Pipeline p; p.build_lattice(m);
     const int N = p.N; const long dim = p.dim;
     CMat Href = p.ref_H();
@@ -38,7 +54,7 @@ static void symm_run(Ctx& c) {
     if ((Href - Href.adjoint()).cwiseAbs().maxCoeff() > 1e-12 * hscale) { c.skipped = true; return; }
     c.model = m.describe();
     int pmode = (int)r.range(0, 3); if (pmode == 3) pmode = PM_CUSTOM;
-    c.features.set("N", N).set("balanced_spins", m.balanced_spins());
+    c.features.set("N", N).set("balanced_spins", m.balanced_spins()).set("wide_scales", wide);
 
     // ---- candidates for the custom mode
     std::vector<Cand> cands; std::vector<Pomerol::Operator> accepted_ops; std::set<std::string> accepted_classes; std::string caseclass = pmode == PM_DEFAULT ? "default" : (pmode == PM_IGNORE ? "ignored" : "custom-none");
@@ -84,10 +100,10 @@ static void symm_run(Ctx& c) {
     for (auto& cd_ : cands) {
         CMat Q = jw_matrix(N, cd_.ref);
         double qs = 1 + Q.cwiseAbs().maxCoeff();
-        double comm = (Href * Q - Q * Href).cwiseAbs().maxCoeff() / (hscale * qs);
+        double comm = (Href * Q - Q * Href).cwiseAbs().maxCoeff() / qs;     // absolute, like the library's symbolic test
         CMat Qoff = Q; for (long s = 0; s < dim; ++s) Qoff(s, s) = 0;
         double offd = Qoff.cwiseAbs().maxCoeff() / qs;
-        bool conserved_ = comm < 1e-11, notconserved = comm > 1e-6, diag = offd < 1e-13, nondiag = offd > 1e-6;
+        bool conserved_ = comm < 1e-14, notconserved = comm > 1e-12, diag = offd < 1e-13, nondiag = offd > 1e-6;
         Pomerol::Symmetrizer probe(*p.IC, *p.Storage);
         std::vector<Pomerol::Operator> one(1, cd_.op);
         bool acc = false, threw = false; std::string what;
@@ -95,7 +111,7 @@ static void symm_run(Ctx& c) {
         c.check("custom-analysis-completes", "C07:analysis-throws:custom:" + cd_.cls, !threw, [&] { return "Symmetrizer::compute({" + cd_.desc + "}) threw " + what; });
         J d = J::obj().set("desc", cd_.desc).set("cls", cd_.cls).set("commutator", comm).set("offdiag", offd).set("accepted", acc);
         cj.push(d);
-        if (notconserved) { ++n_must_reject; c.check("rejects-nonconserved", "C07:accepts:not-conserved:" + cd_.cls, !acc, [&] { return "accepted " + cd_.desc + " although |[H,Q]|/scale = " + fmt(comm); }); }
+        if (notconserved) { ++n_must_reject; c.check("rejects-nonconserved", "C07:accepts:not-conserved:" + cd_.cls, !acc, [&] { return "accepted " + cd_.desc + " although max|[H,Q]| = " + fmt(comm); }); }
         else if (nondiag) { ++n_must_reject; c.check("rejects-nondiagonal", "C07:accepts:non-diagonal:" + cd_.cls, !acc, [&] { return "accepted " + cd_.desc + " although it is not diagonal in the Fock basis (offdiag " + fmt(offd) + ")"; }); }
         else if (conserved_ && diag && !acc) ++n_rejected_valid;
         // only candidates that are legitimately conserved and diagonal go into the partition that is monitored below, so that an
@@ -110,7 +126,7 @@ static void symm_run(Ctx& c) {
     }
     c.count("candidates", (long)cands.size()); c.count("must_reject", n_must_reject); c.count("rejected_valid", n_rejected_valid); c.count("accepted", (long)accepted_ops.size());
     c.features.set("mode", pm_name(pmode)).set("class", caseclass).set("candidates", cj);
-    c.canon = m.canon() + "|" + pm_name(pmode) + "|" + cj.str();
+    c.canon = m.canon() + "|" + pm_name(pmode) + "|" + cj.str() + (wide ? "|wide" : "");
 
     // ---- run the analysis (the property: completes without error on every lattice)
     try {
@@ -149,7 +165,7 @@ static void symm_run(Ctx& c) {
     }
     // ---- (2) H block-diagonal
     bool bd = true; long crossing = 0;
-    for (long a = 0; a < dim; ++a) for (long b = 0; b < dim; ++b) if (std::abs(Href(a, b)) > 1e-13 * hscale && blk[(size_t)a] != blk[(size_t)b]) { bd = false; ++crossing; }
+    for (long a = 0; a < dim; ++a) for (long b = 0; b < dim; ++b) if (std::abs(Href(a, b)) > 1e-13 && blk[(size_t)a] != blk[(size_t)b]) { bd = false; ++crossing; }   // absolute: an element of 1e-9 next to levels of 1e6 is still a matrix element
     c.check("block-diagonal", "C07:block-diagonal:" + caseclass, bd, [&] { return std::to_string(crossing) + " non-zero Hamiltonian matrix elements connect different blocks (class " + caseclass + ")"; });
     // ---- (3) single-target + (4) block mapping of elementary operators
     bool all_single = true;
